@@ -47,7 +47,8 @@ class JSONReader(TextToModel):
 def parse_tree(parent: Optional[Feature], feature_node: Dict[str, Any]) -> Feature:
     """Parse the tree structure and returns the root feature."""
     feature_name = feature_node['name']
-    is_abstract = feature_node['abstract']
+    # Files written by previous versions contain the strings 'True'/'False'
+    is_abstract = feature_node['abstract'] in (True, 'True', 'true')
     feature = Feature(name=feature_name, parent=parent, is_abstract=is_abstract)
 
     parse_attributes(feature, feature_node)
